@@ -56,7 +56,7 @@ def order_snap(o):
             "price": float(o.price), "direction": o.position_direction.name}
 
 
-def run_trading(rnd, S, cfgk, intensity=1.0, script=None, analyser=False):
+def run_trading(rnd, S, cfgk, intensity=1.0, script=None, analyser=False, ids=None, workaround_f19=False):
     """run the real rqalpha on (S, cfgk) with the scripted random strategy; returns a Trace"""
     from rqalpha.environment import Environment
     from rqalpha.core.events import EVENT
@@ -69,6 +69,8 @@ def run_trading(rnd, S, cfgk, intensity=1.0, script=None, analyser=False):
     srnd = random.Random(rnd.random())
     stocks = [s["id"] for s in S["stocks"]]
     futs = [f["id"] for f in S["futures"]]
+    if ids is not None:          # the instruments the strategy refers to (the data set may hold more)
+        stocks, futs = [x for x in stocks if x in ids], [x for x in futs if x in ids]
     life = ["PRE_BEFORE_TRADING", "POST_BEFORE_TRADING", "PRE_OPEN_AUCTION", "POST_OPEN_AUCTION", "PRE_BAR", "POST_BAR",
             "PRE_AFTER_TRADING", "POST_AFTER_TRADING", "PRE_SETTLEMENT", "POST_SETTLEMENT"]
     order_events = ["ORDER_PENDING_NEW", "ORDER_CREATION_PASS", "ORDER_CREATION_REJECT", "ORDER_PENDING_CANCEL", "ORDER_CANCELLATION_PASS",
@@ -145,6 +147,8 @@ def run_trading(rnd, S, cfgk, intensity=1.0, script=None, analyser=False):
         except ValueError:
             return out
         for srec in S["stocks"]:
+            if srec["id"] not in stocks:
+                continue
             bar = srec["bars"].get(di)
             if bar is not None and bar[5] > 0:
                 if 0 < bar[7] - bar[2] <= 0.035:
@@ -393,5 +397,5 @@ def run_trading(rnd, S, cfgk, intensity=1.0, script=None, analyser=False):
         kw = dict(cfgk)
         if analyser:
             kw["analyser"] = analyser
-        tr.result, tr.exc = runner.run_real(S, kw, handlers)
+        tr.result, tr.exc = runner.run_real(S, kw, handlers, workaround_f19=workaround_f19)
     return tr
